@@ -467,8 +467,10 @@ impl<'a> Compiler<'a> {
         }
 
         let locals = &mut self.locals[function_id - 1];
-        // try to find in the locals of the parent function
-        for (i, local) in locals.iter_mut().enumerate() {
+        // try to find in the locals of the parent function, innermost binding first: a name may
+        // be bound more than once (nested loops using the same counter name, a loop variable
+        // named like a parameter)
+        for (i, local) in locals.iter_mut().enumerate().rev() {
             if local.name == name {
                 local.captured = true;
                 return self
